@@ -326,6 +326,24 @@ KERNELS = [
          record_get=("self._thefittest.get().values()", "TheFittest_get",
                      ["_thefittest._genotype", "_thefittest._phenotype", "_thefittest._fitness", "_thefittest._no_update_counter"]),
          append_self_return=True),
+    dict(name="DE_from_population_g_to_fitness", file="optimizers/_differentialevolution.py", cls="DifferentialEvolution", func="_from_population_g_to_fitness", params=[], ret="Mat",
+         self_arrays=["_population_g_i", "_population_ph_i", "_fitness_i"], self_attrs={"_elitism": ("elitism", "Bool")},
+         self_ints=["_thefittest._genotype", "_thefittest._phenotype", "_thefittest._fitness", "_thefittest._no_update_counter"],
+         effects={"self._update_data": ("recordFn", ["_population_g_i", "_population_ph_i", "_fitness_i"],
+                                        ["_thefittest._genotype", "_thefittest._phenotype", "_thefittest._fitness"])},
+         actions={"self._adapt": 9},
+         record_get=("self._thefittest.get().values()", "TheFittest_get",
+                     ["_thefittest._genotype", "_thefittest._phenotype", "_thefittest._fitness", "_thefittest._no_update_counter"]),
+         append_self_return=True),
+    dict(name="SHAGA_from_population_g_to_fitness", file="optimizers/_shaga.py", cls="SHAGA", func="_from_population_g_to_fitness", params=[], ret="Mat",
+         self_arrays=["_population_g_i", "_population_ph_i", "_fitness_i"], self_attrs={"_elitism": ("elitism", "Bool")},
+         self_ints=["_thefittest._genotype", "_thefittest._phenotype", "_thefittest._fitness", "_thefittest._no_update_counter"],
+         effects={"self._update_data": ("recordFn", ["_population_g_i", "_population_ph_i", "_fitness_i"],
+                                        ["_thefittest._genotype", "_thefittest._phenotype", "_thefittest._fitness"])},
+         actions={"self._adapt": 9},
+         record_get=("self._thefittest.get().values()", "TheFittest_get",
+                     ["_thefittest._genotype", "_thefittest._phenotype", "_thefittest._fitness", "_thefittest._no_update_counter"]),
+         append_self_return=True),
     dict(name="tournament_selection", file="utils/selections.py", func="tournament_selection",
          params=[("fitness", "Arr"), ("rank", "Arr"), ("tour_size", "Int"), ("quantity", "Int")], ret="Arr",
          ext_fn={"random_sample": ("sampler", ["range_size", "quantity", "replace"])}),
